@@ -84,6 +84,7 @@ class Pipe:
         self.total = 0
         self.rec = []  # (virtual time, step, bytes) as written by the sender
         self.stall_until = 0.0
+        self.extra_latency = 0.0
         self.reader_gone = False
 
     def readable(self, now):
@@ -177,7 +178,7 @@ class SimSocket:
             return
         net = NET
         tx = self._tx
-        avail = max(s.now + net.latency, tx.stall_until)
+        avail = max(s.now + net.latency + tx.extra_latency, tx.stall_until)
         if tx.chunks and tx.chunks[-1][0] > avail:
             avail = tx.chunks[-1][0]
         tx.chunks.append((avail, bytearray(data)))
